@@ -43,17 +43,17 @@ type mgmtCfg struct {
 }
 
 var mgmtOps = map[string]func(gp *engine.GenginePool){
-	"full":        func(gp *engine.GenginePool) { gp.UpdatePooledRules(c07Text(c07Full)) },
-	"incr":        func(gp *engine.GenginePool) { gp.UpdatePooledRulesIncremental(c07Text(c07Incr)) },
-	"remove":      func(gp *engine.GenginePool) { gp.RemoveRules(c07Rm) },
-	"clear":       func(gp *engine.GenginePool) { gp.ClearPoolRules() },
-	"clear+incr":  func(gp *engine.GenginePool) { gp.ClearPoolRules(); gp.UpdatePooledRulesIncremental(c07Text(c07Incr)) },
-	"setmodel":    func(gp *engine.GenginePool) { gp.SetExecModel(engine.ConcurrentModel) },
-	"isexist":     func(gp *engine.GenginePool) { gp.IsExist([]string{"a", "zz"}) },
-	"number":      func(gp *engine.GenginePool) { gp.GetRulesNumber() },
-	"salience":    func(gp *engine.GenginePool) { gp.GetRuleSalience("a") },
-	"desc":        func(gp *engine.GenginePool) { gp.GetRuleDesc("a") },
-	"getmodel":    func(gp *engine.GenginePool) { gp.GetExecModel() },
+	"full":       func(gp *engine.GenginePool) { gp.UpdatePooledRules(c07Text(c07Full)) },
+	"incr":       func(gp *engine.GenginePool) { gp.UpdatePooledRulesIncremental(c07Text(c07Incr)) },
+	"remove":     func(gp *engine.GenginePool) { gp.RemoveRules(c07Rm) },
+	"clear":      func(gp *engine.GenginePool) { gp.ClearPoolRules() },
+	"clear+incr": func(gp *engine.GenginePool) { gp.ClearPoolRules(); gp.UpdatePooledRulesIncremental(c07Text(c07Incr)) },
+	"setmodel":   func(gp *engine.GenginePool) { gp.SetExecModel(engine.ConcurrentModel) },
+	"isexist":    func(gp *engine.GenginePool) { gp.IsExist([]string{"a", "zz"}) },
+	"number":     func(gp *engine.GenginePool) { gp.GetRulesNumber() },
+	"salience":   func(gp *engine.GenginePool) { gp.GetRuleSalience("a") },
+	"desc":       func(gp *engine.GenginePool) { gp.GetRuleDesc("a") },
+	"getmodel":   func(gp *engine.GenginePool) { gp.GetExecModel() },
 }
 
 var mgmtOpNames = []string{"full", "incr", "remove", "clear", "clear+incr", "setmodel", "isexist", "number", "salience", "desc", "getmodel"}
@@ -212,6 +212,7 @@ func init() {
 			"each scenario explored under every schedule with <=2 (thorough 3) deviations from the default scheduler (delay bounding), then re-explored with every racy access site turned into a scheduling point until no new racy site appears. Observer calls create NO happens-before edges. " + fmt.Sprint("Oracle: no two conflicting accesses unordered by happens-before"),
 		Assume: []string{"accesses the instrumenter does not hook (slice elements, state reached only through reflect) are seen only by the free-running `go test -race`-style cross-check, not by this check", "sequential consistency for the explored control flow"},
 		Run: func(c *hx.Ctx) {
+			raceCrossCheck(c)
 			scs, bounds := c19Scenarios(c.Thorough())
 			for i, sc := range scs {
 				if c.Expired() {
